@@ -401,6 +401,17 @@ def run(cx):
                         return "sleep?=" + lab
                     if mentions_field(r, "sleep"):
                         return "sleep?=" + lab
+                rr = strip_identity(subj)
+                neg_ = False
+                while rr[0] == "unop" and rr[1] == "Not":
+                    neg_ = not neg_
+                    rr = strip_identity(rr[2])
+                if rr[0] == "call" and name_matches(rr[1], ("core::task::poll::Poll::is_pending", "core::task::poll::Poll::is_ready")) and labels in ({"true"}, {"false"}):
+                    pr = strip_identity(rr[2][0])
+                    if pr[0] == "call" and name_matches(pr[1], "Future::poll"):
+                        which = "inner" if mentions_field(pr[2][0], "inner") else "sleep" if mentions_field(pr[2][0], "sleep") else "?"
+                        pend = ((labels == {"true"}) != neg_) == name_matches(rr[1], "core::task::poll::Poll::is_pending")
+                        return f"{which}=" + ("Pending" if pend else "Ready")
                 return "?cond(" + show(subj)[:40] + ")=" + lab
 
             def stmt_sym(bbi, s, oo):
